@@ -49,7 +49,7 @@ def autolinks():
         yield ('autolink-mail', '<%s>' % m, '<a href="mailto:%s">%s</a>' % (esc(m), esc(m)), dict(mail=m))
     yield ('autolink-not', '<foo\\+@bar.example.com>', '&lt;foo+@bar.example.com&gt;', dict(text='<foo\\+@bar.example.com>'))
     for t in ('<>', '< http://foo.bar >', '<m:abc>', '<foo.bar.baz>', '<http://foo.bar/baz bim>',
-              '<x23456789012345678901234567890123:r>', '<1a:b>', 'http://example.com', 'foo@bar.example.com'):
+              '<x23456789012345678901234567890123:r>', '<1a:b>', 'http://example.com', 'foo@bar.example.com', '<http://a.b/c\nd>', '<http://a.b/c\td>'):
         yield ('autolink-not', t, esc(t), dict(text=t))
 
 
